@@ -37,7 +37,7 @@ INVALID = {
     "boolean": ["2", "-1", "255"],
     "bytes": ["'text'", "5", "['a']", "bytearray(b'x')"],
     "datetime": ["'not a date'", "'2020-13-01T00:00:00'", "['x']"],
-    "digest": ["('00', None, None)", "('zz' * 16, None, None)", "(None, 'abcd', None)", "(None, None, 'e3b0')", "('d41d8cd98f00b204e9800998ecf8427e',)", "'d41d8cd98f00b204e9800998ecf8427e'", "12345", "b'\\x00' * 16"],
+    "digest": ["('d41d8cd98f00b204e9800998ecf8427e\\n', None, None)", "('d41d8cd9 8f00b204 e9800998 ecf8427e', None, None)", "(None, ' da39a3ee5e6b4b0d3255bfef95601890afd80709', None)", "(b'd41d8cd98f00b204e9800998ecf8427e\\t', None, None)", "('00', None, None)", "('zz' * 16, None, None)", "(None, 'abcd', None)", "(None, None, 'e3b0')", "('d41d8cd98f00b204e9800998ecf8427e',)", "'d41d8cd98f00b204e9800998ecf8427e'", "12345", "b'\\x00' * 16"],
     "net.ipaddress": ["'1.2.3.256'", "'nonsense'", "-1", "2**128", "'010.8.8.8'", "'127.0.0.01'", "'1.2.3'", "'1.2.3.4.5'", "' 1.2.3.4'", "'1.2.3.4/32'", "'::g'", "'1:2:3:4:5:6:7:8:9'", "''"],
     "net.ipnetwork": ["'10.0.0.1/8'", "'nonsense'", "'010.0.0.0/8'", "'172.016.0.0/12'", "'10.0.0.0/33'", "'10.0.0.0/8/8'", "'::/129'"],
     "net.ipv4.Subnet": ["'10.0.0.1/8'", "5"],
